@@ -255,6 +255,8 @@ struct Svc {
     max_drops: usize,
     max_panics: usize,
     max_ready_checks: usize,
+    /// the first inner call panics synchronously inside call()
+    sync_panic_first: bool,
 }
 
 type A = AdaptiveService<GatedInner, Aimd>;
@@ -312,12 +314,15 @@ impl Scenario for Svc {
         "C13"
     }
     fn label(&self) -> String {
-        format!("adaptive service algorithm={} callers={}{}", if self.vegas { "vegas" } else { "aimd" }, self.callers, if self.siblings { " two-services-of-one-layer" } else { "" })
+        format!("adaptive service algorithm={} callers={}{}", if self.vegas { "vegas" } else { "aimd" }, self.callers, if self.siblings { " two-services-of-one-layer" } else if self.sync_panic_first { " first-inner-call-panics-in-call()" } else { "" })
     }
     fn callers(&self) -> usize {
         self.callers
     }
     fn init(&self, w: &mut World) -> X {
+        if self.sync_panic_first {
+            w.inner.lock().unwrap().sync_panic_calls = vec![0];
+        }
         let inner = GatedInner::new(w.inner.clone());
         let inner2 = GatedInner::new(w.inner.clone());
         let (svc, sibling) = if self.vegas {
@@ -364,13 +369,19 @@ impl Scenario for Svc {
         let (which, mut h) = x.ready[c].take().expect("arrive without readiness");
         // the request's key names the service it goes through
         let req = Req::new(c as u32, which);
-        let fut: trv_core::world::CallerFut = match &mut h {
-            // `keep` does not drop the service's own future when it resolves: the explorer
-            // decides when a finished call's future goes away (join!, select! on &mut fut)
-            Handle::A(s) => trv_core::world::keep(s.call(req.clone()), map),
-            Handle::V(s) => trv_core::world::keep(s.call(req.clone()), map),
-        };
-        w.set_arrived(c, req, fut);
+        // (the inner service may panic inside call(): the call then panics before a future exists)
+        let r = std::panic::catch_unwind(std::panic::AssertUnwindSafe(|| -> trv_core::world::CallerFut {
+            match &mut h {
+                // `keep` does not drop the service's own future when it resolves: the explorer
+                // decides when a finished call's future goes away (join!, select! on &mut fut)
+                Handle::A(s) => trv_core::world::keep(s.call(req.clone()), map),
+                Handle::V(s) => trv_core::world::keep(s.call(req.clone()), map),
+            }
+        }));
+        match r {
+            Ok(fut) => w.set_arrived(c, req, fut),
+            Err(_) => w.set_resolved_at_arrival(c, req, Outcome::Layer("PanickedInCall".into())),
+        }
     }
     fn outs(&self) -> Vec<Out> {
         vec![Out::Ok, Out::Err(0), Out::Panic]
@@ -480,9 +491,10 @@ impl Scenario for Svc {
 
 fn svc_configs(tier: Tier) -> Vec<Svc> {
     vec![
-        Svc { siblings: false, vegas: false, callers: tier.pick(3, 4), max_ticks: 3, max_drops: 2, max_panics: 1, max_ready_checks: tier.pick(5, 6) },
-        Svc { siblings: false, vegas: true, callers: 3, max_ticks: 2, max_drops: 1, max_panics: 1, max_ready_checks: 4 },
-        Svc { siblings: true, vegas: false, callers: 3, max_ticks: tier.pick(1, 2), max_drops: 1, max_panics: 0, max_ready_checks: tier.pick(4, 5) },
+        Svc { siblings: false, vegas: false, callers: tier.pick(3, 4), max_ticks: 3, max_drops: 2, max_panics: 1, max_ready_checks: tier.pick(5, 6), sync_panic_first: false },
+        Svc { siblings: false, vegas: true, callers: 3, max_ticks: 2, max_drops: 1, max_panics: 1, max_ready_checks: 4, sync_panic_first: false },
+        Svc { siblings: false, vegas: false, callers: 3, max_ticks: 1, max_drops: 1, max_panics: 0, max_ready_checks: 4, sync_panic_first: true },
+        Svc { siblings: true, vegas: false, callers: 3, max_ticks: tier.pick(1, 2), max_drops: 1, max_panics: 0, max_ready_checks: tier.pick(4, 5), sync_panic_first: false },
     ]
 }
 
